@@ -68,8 +68,14 @@ def validate(report, *, before: dict, after: dict, logs: list, sast_origins=("so
         else:
             kind += ":extra"
         out.append((kind, f"report results {got[:8]} but executed {expected[:8]}"))
+    return out + validate_results(report["results"], before=before, after=after, sast_origins=sast_origins)
+
+
+def validate_results(results, *, before: dict, after: dict, sast_origins=("sonar", "semgrep", "defectdojo", "codeql")):
+    """The per-result structural invariants (usable on a result list without the report envelope)."""
+    out = []
     current = {}  # path -> text as predicted by folding the reported diffs in order (covers several codemods and dry runs)
-    for r in report["results"]:
+    for r in results:
         cm = r["codemod"]
         for key in ("summary", "description"):
             if not str(r.get(key, "")).strip():
